@@ -55,7 +55,12 @@ func (p *PauseController) UnmarshalJSON(data []byte) error {
 		return err
 	}
 
-	switch p.State {
+	// Re-apply the saved state from scratch, so that a paused controller gets
+	// the channel that Resume and Stop release.
+	state := p.State
+	p.State = PauseStateRunning
+
+	switch state {
 	case PauseStateRunning:
 		p.Resume()
 	case PauseStatePaused:
